@@ -42,6 +42,19 @@ class Skip(Exception):
 # at the position of the loop: in `rank`, `index` is the shadowing `let mut index = index + 1`); they are the
 # fuels of the corresponding hand models, whose sufficiency the property proofs establish
 #   types: N Nat, I Int, B Bool, AN Array Nat, AI Array Int, U Unit, ("O", t) Option t, ("T", [..]) tuple
+# `Vec<HeapElement{index, weight}>` and `Vec<HeapNode{.., key, ..}>` become parallel arrays (source-level rewrite
+# before parsing): field reads/writes through an index, whole-element copies and the element literal
+HEAP_REWRITE = [
+    (r"self\.heap\[([^\]]+)\]\s*=\s*self\.heap\[([^\]]+)\];",
+     r"self.heap_index[\1] = self.heap_index[\2]; self.heap_weight[\1] = self.heap_weight[\2];"),
+    (r"self\.heap\[([^\]]+)\]\s*=\s*HeapElement\s*\{\s*index:\s*(\w+),\s*weight,?\s*\};",
+     r"self.heap_index[\1] = \2; self.heap_weight[\1] = weight;"),
+    (r"self\.inserted_nodes\[self\.heap\[(\w+)\]\.index\]\.key", r"self.nodes_key[self.heap_index[\1]]"),
+    (r"self\.inserted_nodes\[(\w+)\]\.key", r"self.nodes_key[\1]"),
+    (r"self\.heap\[(\w+)\]\.index", r"self.heap_index[\1]"),
+    (r"self\.heap\[(\w+)\]\.weight", r"self.heap_weight[\1]"),
+    (r"self\.heap\.len\(\)", r"self.heap_index.len()"),
+]
 WL = [
     dict(file="src/math.rs", impl=None, fn="choose", lean="choose", ret="N", narrow={"u64": True}),
     dict(file="src/enumerative_source_coding.rs", impl=None, fn="decode_u64", lean="decodeU64", ret="N"),
@@ -58,6 +71,20 @@ WL = [
          ret="N", fuel=["self_parent.size + 1"]),
     dict(file="src/union_find.rs", impl=r"UnionFind", fn="union", lean="ufUnion", selff={"parent": "AN", "rank": "AN", "number_of_sets": "N"},
          ret="U"),
+    dict(file="src/addressable_binary_heap.rs", impl=None, fn="up_heap", lean="heapUp", ret="U",
+         selff={"heap_index": "AN", "heap_weight": "AI", "nodes_key": "AN"}, fuel=["key"], rewrite=HEAP_REWRITE),
+    dict(file="src/addressable_binary_heap.rs", impl=None, fn="down_heap", lean="heapDown", ret="U",
+         selff={"heap_index": "AN", "heap_weight": "AI", "nodes_key": "AN"}, fuel=["self_heap_index.size"], rewrite=HEAP_REWRITE),
+    # the probing loop of the medium-size hash table: cells as parallel columns, the hash of the key is a parameter
+    # (`home`), the generic key is a Nat
+    dict(file="src/medium_size_hash_table.rs", impl=None, fn="contains_key", lean="tableContains", ret="B",
+         selff={"time": "AN", "keys": "AN", "stamp": "N"}, params={"key": "N"}, extra_params=[("home", "N")], fuel=["65536"],
+         rewrite=[(r"let key_as_u32: u32 = key[^;]*;", ""),
+                  (r"self\.hasher\.hash\(key_as_u32\) as usize", "home"),
+                  (r"self\.positions\[(\w+)\]\.time", r"self.time[\1]"),
+                  (r"self\.positions\[(\w+)\]\.key", r"self.keys[\1]"),
+                  (r"self\.current_timestamp\.0", "self.stamp"),
+                  (r"MAX_ELEMENTS", "65536")]),
     dict(file="src/partition_id.rs", impl=r"PartitionID", fn="lowest_common_ancestor", lean="pidLca", newtype=True, ret="N",
          fuel=["32"], params={"other": "N"}),
 ]
@@ -806,23 +833,47 @@ class Gen:
             fuel = self.fuel_of[id(s)]
             for n_ in env:
                 fuel = re.sub(r"\b" + n_ + r"\b", env[n_][0], fuel)
+            has_break = self.contains_break(s[2])
+            env = dict(env)
+            if has_break:
+                env["__brk"] = ("false", "B")
+                names = ["__brk"] + names
             envb = dict(env)
             for n_ in names:
-                envb[n_] = (self.fresh(n_), env[n_][1])
+                envb[n_] = (self.fresh(n_.strip("_")), env[n_][1])
             cond = self.ex(s[1], envb)
+            if has_break:
+                cond = f"(!{envb['__brk'][0]} && {cond})"
             body = self.seq(s[2][0], s[2][1], envb, lambda e2, t_, i_: "  " * i_ + self.tup(names, e2), ind + 2)
             env2 = dict(env)
             for n_ in names:
-                env2[n_] = (self.fresh(n_), env[n_][1])
+                env2[n_] = (self.fresh(n_.strip("_")), env[n_][1])
             return (f"{pad}let {self.tup_pat(names, env2)} := Tbx.Gen.whileFuel ({fuel})\n"
                     f"{pad}    (fun {self.tup_pat(names, envb)} => {cond})\n"
                     f"{pad}    (fun {self.tup_pat(names, envb)} =>\n{body})\n"
-                    f"{pad}    {self.tup(names, env)}\n") + self.seq(rest, tail, env2, final, ind)
+                    f"{pad}    {self.tup(names, env)}\n") + self.seq(rest, tail, {k_: v_ for k_, v_ in env2.items() if k_ != "__brk"}, final, ind)
         if k == "for":
             return self.stmt_for(s, rest, tail, env, final, ind)
         if k == "break":
-            raise Skip("break outside the supported prefix-loop shape")
+            if "__brk" in env:
+                # leave the enclosing `while`: the rest of the body is skipped, the loop condition sees the flag
+                env2 = dict(env)
+                env2["__brk"] = ("true", "B")
+                return final(env2, None, ind)
+            raise Skip("break outside the supported loop shapes")
         raise Skip(f"statement {k}")
+
+    def contains_break(self, b):
+        def st(x):
+            if x[0] == "break":
+                return True
+            if x[0] == "expr" and x[1][0] == "if":
+                e = x[1]
+                return blk(e[2]) or (e[3] is not None and blk(e[3]))
+            return False
+        def blk(bb):
+            return any(st(x) for x in bb[0]) or (bb[1] is not None and bb[1][0] == "if" and (blk(bb[1][2]) or (bb[1][3] is not None and blk(bb[1][3]))))
+        return blk(b)
 
     def has_effect(self, e):
         def blk(b):
@@ -951,6 +1002,8 @@ class Gen:
 def translate(spec):
     src = open(os.path.join(REPO, spec["file"])).read()
     params, ret, body = find_fn(src, spec.get("impl"), spec["fn"])
+    for pat, rep in spec.get("rewrite", []):
+        body = re.sub(pat, rep, body)
     g = Gen(spec, params)
     env, binders = {}, []
     mut_self = False
@@ -982,6 +1035,9 @@ def translate(spec):
                 t = "AI"
             else:
                 raise Skip(f"parameter type {pt}")
+        env[pn] = (pn, t)
+        binders.append(f"({pn} : {lty(t)})")
+    for pn, t in spec.get("extra_params", []):
         env[pn] = (pn, t)
         binders.append(f"({pn} : {lty(t)})")
     toks = tokenize("{" + body + "}")
@@ -1071,7 +1127,7 @@ def tie_theorems(names, sub):
     for l in names:
         a, b = f"Tbx.GenCur.{sub}{l}", f"Tbx.Gen.{sub}{l}"
         rw = "simp only [" + ", ".join(prev) + "]"
-        out.append(f"theorem {l}_cur : @{a} = @{b} := by\n  unfold {a} {b}\n  first | ({rw}) | rfl")
+        out.append(f"theorem {l}_cur : @{a} = @{b} := by\n  unfold {a} {b}\n  try {rw}\n  all_goals rfl")
         prev.append(f"{l}_cur")
     return "\n".join(out)
 
@@ -1094,7 +1150,7 @@ def main():
                 import traceback
                 traceback.print_exc()
             skipped.append({"fn": spec["fn"], "why": str(e)})
-        except (KeyError, IndexError, TypeError) as e:
+        except Exception as e:  # the translator never guesses and never takes the check down
             skipped.append({"fn": spec["fn"], "why": f"translator error {type(e).__name__}: {e}"})
     if "--pin" in sys.argv:
         json.dump(raw, open(PINNED, "w"), indent=1)
@@ -1106,13 +1162,18 @@ def main():
     cur_txt = "\n".join(cur)
     for name in ("Tbx.Gen.Loops.choose", "Tbx.Gen.fenwickLsb", "Tbx.Gen.pidLevel", "Tbx.Gen.pidParent"):
         cur_txt = cur_txt.replace(name, name.replace("Tbx.Gen.", "Tbx.GenCur.", 1))
-    new = (PRELUDE + "\n".join(pin_defs) + "\nend Loops\nend Tbx.Gen\n\n"
-           "namespace Tbx.GenCur.Loops\nopen Tbx.Gen.Loops (prevPow2)\n\n" + cur_txt + "\nend Tbx.GenCur.Loops\n")
+    new = PRELUDE + "\n".join(pin_defs) + "\nend Loops\nend Tbx.Gen\n"
+    cur_file = ("/- GENERATED by tools/translate2.py from /repo's CURRENT source on every check run. Do not edit. -/\n"
+                "import Tbx.Gen.Loops\nimport Tbx.Gen.FnsCur\nset_option linter.unusedVariables false\n"
+                "namespace Tbx.GenCur.Loops\nopen Tbx.Gen.Loops (prevPow2)\n\n" + cur_txt + "\nend Tbx.GenCur.Loops\n")
     old = open(OUT).read() if os.path.exists(OUT) else None
     if new != old:
         with open(OUT, "w") as f:
             f.write(new)
-    tie = ("/- GENERATED by tools/translate2.py. Do not edit. -/\nimport Tbx.Gen.Loops\nimport Tbx.Gen.CurTie\nset_option linter.unusedSimpArgs false\nnamespace Tbx.Gen.LoopsCurTie\n\n" +
+    cp = os.path.join(os.path.dirname(OUT), "LoopsCur.lean")
+    if not os.path.exists(cp) or open(cp).read() != cur_file:
+        open(cp, "w").write(cur_file)
+    tie = ("/- GENERATED by tools/translate2.py. Do not edit. -/\nimport Tbx.Gen.LoopsCur\nimport Tbx.Gen.CurTie\nset_option linter.unusedSimpArgs false\nnamespace Tbx.Gen.LoopsCurTie\n\n" +
            "open Tbx.Gen.CurTie\n" + tie_theorems([l for l in order if l in raw], "Loops.") +
            "\n\nend Tbx.Gen.LoopsCurTie\n")
     tp = os.path.join(os.path.dirname(OUT), "LoopsCurTie.lean")
